@@ -15,6 +15,7 @@ import importlib
 import json
 import multiprocessing
 import os
+import random
 import sys
 import time
 import traceback
@@ -116,7 +117,10 @@ class Rec:
 
 
 class Clause:
-    def __init__(self, name, strategy, fn, quick, thorough, rule, floors=None, shards=16):
+    def __init__(self, name, strategy, fn, quick, thorough, rule, floors=None, shards=16, enumerate_cases=None):
+        """``enumerate_cases(tier)`` (optional) returns an explicit finite list of cases that is run
+        completely instead of drawing from ``strategy`` (exhaustive enumeration of a finite space)."""
+        self.enumerate_cases = enumerate_cases
         self.name = name
         self.strategy = strategy
         self.fn = fn
@@ -182,6 +186,7 @@ def run_case(clause, case):
 
     rec = Rec()
     np.random.seed(12345)  # coxeter's miniball retry path draws from numpy's global RNG
+    random.seed(12345)  # miniball itself picks its pivots with the random module
     try:
         with warnings.catch_warnings():
             warnings.simplefilter("ignore")
@@ -228,9 +233,6 @@ def run_shard(args):
     res = {"clause": cname, "shard": shard, "seed": sd, "n": n, "cases": 0, "labels": collections.Counter(),
            "nontrivial": set(), "buckets": {}, "samples": [], "ratios": {}, "asserts": 0}
 
-    @seed(sd)
-    @_settings(n)
-    @given(clause.strategy)
     def t(case):
         rec = run_case(clause, case)
         res["cases"] += 1
@@ -253,7 +255,12 @@ def run_shard(args):
             else:
                 b["count"] += 1
 
-    t()
+    if clause.enumerate_cases is not None:
+        tier, nshards = n
+        for case in clause.enumerate_cases(tier)[shard::nshards]:
+            t(case)
+    else:
+        seed(sd)(_settings(n)(given(clause.strategy)(t)))()
     return res
 
 
@@ -270,6 +277,8 @@ def shrink_bucket(args):
     clause = clauses[cname]
     best = {}
     t0 = time.time()
+    if clause.enumerate_cases is not None:
+        return key, best
 
     @seed(sd)
     @_settings(n, shrink=True)
@@ -334,6 +343,9 @@ def main(check_id, tier, replay_path=None):
 
     tasks = []
     for c in clauses.values():
+        if c.enumerate_cases is not None:
+            tasks += [(prop, c.name, s, (tier, c.shards), seed_base) for s in range(c.shards)]
+            continue
         n = c.quick if tier == "quick" else c.thorough
         shards = max(1, min(c.shards, n // 8 or 1))
         per = -(-n // shards)
